@@ -19,6 +19,123 @@ import (
 )
 
 // ---------------------------------------------------------------------------------------------
+// radii too small for the chord: the model's scaleRadii (findEllipseCenter) against SVG F.6.6
+
+func runRadii(m *mp.Model, r *rng.R, n int, out *res.Result) error {
+	for i := 0; i < n; i++ {
+		cr := r.Sub()
+		ra, rb := float64(cr.Range(1, 320))/4, float64(cr.Range(1, 320))/4
+		if cr.P(1, 5) {
+			rb = ra
+		}
+		phi := float64(cr.Range(-12, 12)*15) * math.Pi / 180
+		dx, dy := dy(cr, 800, 4), dy(cr, 800, 4)
+		// half chord in the frame rotated by -phi (F.6.5.1 with the start point at the origin)
+		x1p, y1p := (math.Cos(phi)*dx+math.Sin(phi)*dy)/2, (-math.Sin(phi)*dx+math.Cos(phi)*dy)/2
+		midX := x1p * (rb / ra)
+		sq := math.Sqrt(midX*midX + y1p*y1p) // what findEllipseCenter computes
+		ans, err := m.Ask(sx.L(sx.A("radii"), sx.R(ra), sx.R(rb), sx.R(x1p), sx.R(y1p), sx.R(sq)))
+		if err != nil {
+			return err
+		}
+		if ans.Head() != "ok" {
+			return fmt.Errorf("model rejected radii request: %s", ans)
+		}
+		ga, _, _ := ratF(ans.Xs[1])
+		gb, _, _ := ratF(ans.Xs[2])
+		lam := x1p*x1p/(ra*ra) + y1p*y1p/(rb*rb)
+		wa, wb := ra, rb
+		if lam > 1 {
+			wa, wb = math.Sqrt(lam)*ra, math.Sqrt(lam)*rb
+			out.Hit("radii:scaled")
+		} else {
+			out.Hit("radii:kept")
+		}
+		out.Count(fmt.Sprint("radii ", ra, rb, phi, dx, dy), lam > 1)
+		if math.Abs(lam-1) < 1e-9 {
+			continue // the comparison rb² < midlenSq is decided by rounding
+		}
+		if !near(ga, wa, 1e-9) || !near(gb, wb, 1e-9) {
+			out.Add(res.Finding{Kind: "corr", Op: "corr:arc-radii", Input: fmt.Sprint(ra, rb, x1p, y1p), Impl: fmt.Sprint(wa, wb), Model: ans.String(), Reason: "scaleRadii differs from SVG F.6.6 (sqrt(lambda) * r)"})
+		}
+	}
+	return nil
+}
+
+// ---------------------------------------------------------------------------------------------
+// several <path> elements in one document (the pathParser object is shared by all of them)
+
+func runMultiPath(m *mp.Model, r *rng.R, n int, out *res.Result) error {
+	for i := 0; i < n; i++ {
+		cr := r.Sub()
+		caseSeed := cr.Seed()
+		k := cr.Range(2, 4)
+		var b strings.Builder
+		b.WriteString("<svg>")
+		var ds []string
+		var modelOps, specOps []mop
+		quad := false
+		relStart := 0
+		for q := 0; q < k; q++ {
+			cmds := genPath(cr, 4, cr.P(1, 4))
+			if q > 0 && cr.P(3, 4) {
+				// a later path that starts with a RELATIVE moveto: relative to (0,0), not to the previous path's end
+				cmds[0].letter = 'm'
+				relStart++
+			}
+			var ft feats
+			d := pathText(cr, cmds, &ft, true)
+			ds = append(ds, d)
+			quad = quad || hasQuad(d)
+			fmt.Fprintf(&b, `<path d="%s"/>`, d)
+			ans, err := m.Ask(sx.L(sx.A("path"), sx.S(d), cmdsX(cmds)))
+			if err != nil {
+				return err
+			}
+			model, err := parseSide(ans.Xs[1])
+			if err != nil {
+				return err
+			}
+			spec, err := parseSide(ans.Xs[2])
+			if err != nil {
+				return err
+			}
+			if !model.ok || !spec.ok || !ans.Xs[3].IsAtom("1") {
+				return fmt.Errorf("multi-path: generated path %q rejected: %s", d, ans)
+			}
+			modelOps = append(modelOps, model.ops...)
+			specOps = append(specOps, spec.ops...)
+		}
+		b.WriteString("</svg>")
+		src := b.String()
+		out.Count(src, true)
+		out.Hit(fmt.Sprintf("multipath:paths=%d relative-start=%d", k, relStart))
+		if i < 1 {
+			out.Sample(map[string]interface{}{"svg": src, "seed": caseSeed})
+		}
+		dr := drawSVG(src, 200, 200)
+		if !dr.oc.OK() || dr.err != nil {
+			out.Add(res.Finding{Kind: "judge", Op: "judge:multipath", Input: src, Impl: fmt.Sprint(dr.oc.Panic, dr.oc.Timeout, dr.err), Reason: "valid paths rejected or crash", Key: dr.oc.Site, Seed: caseSeed})
+			continue
+		}
+		impl := implOps(dr.evs, false)
+		md := cmpMode{exact: true}
+		if quad {
+			md.cubicTol = tol20
+		}
+		if mm := walk(impl, modelOps, md); mm != nil {
+			out.Add(res.Finding{Kind: "corr", Op: "corr:multipath", Input: src, Impl: opsString(impl), Reason: mm.String(), Seed: caseSeed})
+		}
+		if mm := walk(impl, specOps, cmpMode{judge: true, lineTol: 1e-6, cubicTol: 1e-6, arcTol: pathArcTol, devMax: &devPath}); mm != nil {
+			out.Add(res.Finding{Kind: "judge", Op: "judge:multipath", Input: src, Impl: opsString(impl), Reason: "each path starts from a fresh current point (0,0): " + mm.String(), Seed: caseSeed})
+		} else {
+			out.Hit("multipath:judge-ok")
+		}
+	}
+	return nil
+}
+
+// ---------------------------------------------------------------------------------------------
 // shapes
 
 const vpW, vpH = 200, 100 // viewport handed to Draw (no viewBox): percentages resolve against it
@@ -37,6 +154,18 @@ func lenAttr(r *rng.R, v float64, ref float64, allowPct bool) (string, float64) 
 		return " " + fmtF(v) + " ", v
 	}
 	return fmtF(v), v
+}
+
+func effRadii(hasRx, hasRy bool, rx, ry float64) (float64, float64) {
+	switch {
+	case hasRx && hasRy:
+		return rx, ry
+	case hasRx:
+		return rx, rx
+	case hasRy:
+		return ry, ry
+	}
+	return 0, 0
 }
 
 func optX(present bool, v float64) sx.X {
@@ -68,15 +197,27 @@ func runShapes(m *mp.Model, r *rng.R, n int, out *res.Result) error {
 			el = "<rect" + attr("x", xt) + attr("y", yt) + attr("width", wt) + attr("height", ht)
 			hasRx, hasRy := cr.P(1, 2), cr.P(1, 2)
 			var rx, ry float64
+			big := cr.P(1, 8) // 'pill' shapes: radii far beyond half the size must be clamped
 			if hasRx {
 				var t string
-				t, rx = lenAttr(cr, float64(cr.Range(0, 160))/4, vpW, false)
+				v := float64(cr.Range(0, 160)) / 4
+				if big {
+					v = 500
+				}
+				t, rx = lenAttr(cr, v, vpW, false)
 				el += attr("rx", t)
 			}
 			if hasRy {
 				var t string
-				t, ry = lenAttr(cr, float64(cr.Range(0, 160))/4, vpH, false)
+				v := float64(cr.Range(0, 160)) / 4
+				if big && cr.P(2, 3) {
+					v = 500
+				}
+				t, ry = lenAttr(cr, v, vpH, false)
 				el += attr("ry", t)
+			}
+			if erx, ery := effRadii(hasRx, hasRy, rx, ry); w > 0 && h > 0 && erx > 0 && ery > 0 && (erx > w/2 || ery > h/2) {
+				out.Hit("shape:rect-radius-clamped")
 			}
 			el += "/>"
 			if cr.P(1, 10) {
